@@ -2,22 +2,119 @@
 # decline(pid, reason)
 
 _NB = 'checker for the decidable clauses (DESIGN.md section 3) not built yet in this round'
+_TB = ('Trusted: CPython ast; the configuration folding table (linux / CPython 3.12 arms only); the anchor tables '
+       'in /verif/sa/rules (function and field names read off the code: a vanished anchor aborts with exit 2, '
+       'never passes).')
+
+claim('C01',
+      'tuple-shape/role inference over the TASK/ACK/READY messages + CFG guard/dominance rules on every '
+      'resolution route + exception-handler discipline',
+      'Decides structural necessary conditions of exactly-once resolution on every path of pool.py: every key used '
+      'on the job cache is a job id (producer/worker/dispatch agreement of the message tuples, through the send-failure '
+      'handlers); every outside resolution is on a fresh cache lookup or under a not-ready guard; an entry leaves the '
+      'cache exactly when ready and accepted; lookups tolerate finished/unknown jobs; success and error callbacks are '
+      'exclusive; outcome writes sit in the handle\'s critical section behind an already-resolved test; the worker '
+      'cannot turn its termination signal into a task result. All paths incl. exception edges are covered, which '
+      'the six pool tests (one schedule, no faults) never execute.',
+      'Not decided: liveness (that a job reaches an outcome) under arbitrary schedules/faults, timeliness, kernel '
+      'message loss. Known finding D1b (iterator-failure fallback key 0) is reported as KNOWN-FINDING. ' + _TB,
+      'DESIGN.md section 3, C01')
 
 claim('C03',
       'CFG must-pass / path-count / guard rules over Worker.workloop and ApplyResult._ack',
       'Decides on every path of the worker loop (including exception edges and the NACK branch): a completed '
       'ACK put carrying (job, part, clock read, own pid) precedes the task call; exactly one completed READY put '
-      'per executed job (fallback only on the failure edge of the first, flagged as failure); the NACK answer '
+      'per executed job (fallback only on the failure edge of the first, flagged as failure) and no path on which a '
+      'task\'s own exception escapes without a result; the NACK answer '
       'reaches the loop head without task call, READY or quota increment; the quota counter moves by one per '
       'executed job and is compared with <; the parent records owner/time before the accept callback and '
       'answers NACK without owner on the cancelled arm; the dispatch table covers ACK/READY/DEATH with matching '
       'arity. These are necessary conditions of the property, decided for all paths rather than the one '
       'schedule a test sees.',
       'Not decided: that the parent processes ACK before READY at run time (follows from one FIFO pipe + one '
-      'consumer thread, assumed); behaviour of a hostile synq peer; message loss in the kernel. Trusted: CPython '
-      'ast, the anchor table (Worker.workloop, wait_for_syn closure, ApplyResult._ack, _make_methods).',
+      'consumer thread, assumed); behaviour of a hostile synq peer; message loss in the kernel. ' + _TB,
       'DESIGN.md section 3, C03')
 
-for _p in ['C01', 'C02', 'C04', 'C05', 'C06', 'C07', 'C08', 'C09', 'C10', 'C11', 'C12', 'C13', 'C14',
-           'C15', 'C16', 'C17', 'C18', 'C19', 'C20']:
+claim('C04',
+      'sibling/interface cross-check of the four cache-entry classes + CFG guard rules on the reaper',
+      'Decides: every member the reaper uses on a cached job is provided by every handle class; the pool-made '
+      'failure form makes every handle class ready / hands the consumer an item; owners of finished parts are '
+      'forgotten; the lost marker has one writer, reached only for an unfinished job with an owner that really '
+      'exited (popen None or exit code set; pid in cleaned or not among live pids); a job is declared lost only from '
+      'the reaper after now - lost_time exceeded its timeout, with the recorded status; wait-status decoding '
+      '(-WTERMSIG / WEXITSTATUS); exactly {EX_OK, EX_RECYCLE} are exempt from error logging.',
+      'Not decided: the timing bounds, that every other job completes, replacement timing, deaths outside task code. '
+      'Known findings D3 (x3), D3b, D4b (x3) are genuine defects of the pinned tree reported as KNOWN-FINDING. ' + _TB,
+      'DESIGN.md section 3, C04')
+
+claim('C05',
+      'attribute-shape lattice over the cache-entry classes + reaching-definition/guard rules on the time-limit scan',
+      'Decides: members and scalar shapes the scanner needs exist in every handle class; the limit compared is '
+      'the job\'s own with the pool default only under `is None`, per-call before pool default in apply_async and bound '
+      'to the right constructor parameter; _timed_out is truthy only when now >= start + limit with both set; the job is '
+      'failed with TimeLimitExceeded(limit) before its own worker is signalled; _trywaitkill escalates to SIGKILL on '
+      'every path that did not see the worker exit; hard test before and excluding soft; the worker honours the '
+      'termination signal (R08.1); the supervision tick reaps then refills.',
+      'Not decided: "within about one scan period", "shortly afterwards", that the replacement serves later jobs '
+      '(timing / OS facts). Known findings D4 (x2), D4b (x5): map and imap jobs crash the scanner on the pinned tree. '
+      + _TB, 'DESIGN.md section 3, C05')
+
+claim('C06',
+      'CFG guard/must-pass rules on the soft-timeout path + reaching definitions of the signalled set',
+      'Decides: the soft action runs only for a key not in the signalled set, the key is added right after, the set is '
+      'created outside the scan loop and only pruned of keys that left the cache, and the hard test never consults it; '
+      'signal = SIGUSR1 to the job\'s owner pid, callback told soft=True and the soft limit; the worker installs the '
+      'raising handler after reset_signals; no action for a resolved job or a pid that is not a pool worker; soft '
+      'limit precedence; hard excludes soft.',
+      'Not decided: that the exception surfaces inside task code (signal delivery point), that a caught soft timeout '
+      'still delivers the value, scan timing. Known findings D4/D4b shared with C05. ' + _TB,
+      'DESIGN.md section 3, C06')
+
+claim('C07',
+      'guard dominance on submission methods, must-pass on shutdown paths, who-may-rebind on shared roots, '
+      'data-dependence (provenance) of the consumed-result credit',
+      'Decides: every handle construction / task enqueue is under state == RUN and close() flips the state before '
+      'the sentinel; the feeder sends one sentinel per worker of the live list (shared lists are never rebound) and one '
+      'to the result handler on every exit; the result handler always ends in finish_at_shutdown, which dispatches '
+      'every message while the cache is non-empty and gives up only 5 s after WorkersJoined; join() stops the three '
+      'threads and joins every started worker; the worker waits for its own completed count on every exit.',
+      'Not decided: that jobs resolve with their real result, absence of hangs, wall time of join(), reaping as an OS '
+      'fact. Known findings D5 (credit keyed by the job, not the sender) and D6 (credit skipped for a discarded job): '
+      'both give the 30 s join on the pinned tree. ' + _TB,
+      'DESIGN.md section 3, C07')
+
+claim('C08',
+      'exception-handler discipline over the worker call graph + must-pass rules on the exit path and _terminate_pool',
+      'Decides: no handler reachable in worker code can swallow the SystemExit of the termination handler (re-raise '
+      'whenever the exit flag is set); every way out of Worker.__call__ runs _do_exit, which calls the exit callback '
+      'first, reports (pid, exitcode) and reaches os._exit on every edge; _terminate_pool marks/stops every helper, '
+      'enqueues both sentinels, terminates then joins every live worker (loops visit every worker); it is referenced '
+      'only as the Finalize callback; terminate_job marks the process it signalled and the reaper reports Terminated '
+      'exactly for marked processes; the termination signal is in both signal tables; forks re-check the pool state.',
+      'Not decided: bounded wall time, "no worker alive afterwards" as an OS fact, wake-up of an idle worker from a '
+      'C-level semaphore wait. ' + _TB,
+      'DESIGN.md section 3, C08')
+
+claim('C09',
+      'path counting and per-iteration must-pass rules on supervision, normal forms of loop bounds',
+      'Decides: the refill loop runs target - live times, forks exactly once per iteration after re-checking the '
+      'state, each new worker is appended/started once with the first free slot index and its own counter; reap '
+      'precedes refill and feeds it; quota accounting (one increment per executed job, <, recycle status only at the '
+      'quota or memory limit); exit guard on every exit; grow/shrink move target and semaphore together and shrink '
+      'lowers the target before terminating an inactive worker.',
+      'Not decided: that supervision runs (thread scheduling), fork success, "no job held up" as a runtime fact. '
+      'Known findings D3 (x3) and D5: recycling harms multi-part jobs on the pinned tree. ' + _TB,
+      'DESIGN.md section 3, C09')
+
+claim('C19',
+      'path enumeration of the exit-code table and guard rules on Popen.poll/wait and the start/join guards',
+      'Decides: _bootstrap returns 0 only after a completed run(), SystemExit(int) -> that int, SystemExit() -> 1, '
+      'other exceptions -> 1, and the forked child passes it to os._exit in a finally; Popen.poll decodes '
+      '-WTERMSIG/WEXITSTATUS only for its own pid and caches; forkserver poll stores the value read or non-zero; '
+      'a timed wait polls only after the sentinel was ready, else None; start asserts not-started and creator, '
+      'join discards the child only after a code, exitcode/is_alive go through poll.',
+      'Not decided: every signal/start-method combination at run time, join timing. ' + _TB,
+      'DESIGN.md section 3, C19')
+
+for _p in ['C02', 'C10', 'C11', 'C12', 'C13', 'C14', 'C15', 'C16', 'C17', 'C18', 'C20']:
     decline(_p, _NB)
